@@ -10,6 +10,25 @@ import mut
 VERIF = mut.VERIF
 # which checks to run per seed (the property's own check first) and the hand-written description of the change
 SEEDS = {
+ # ---- batch 8 ----
+ "C01-splitfull-reversedforward-minimal-width": (["C01", "C04"], "varintSplitFullReversedPutForward_ writes the external payload with the minimal-width varintExternalPut: a 1-byte payload is no longer promoted to 2 bytes, the unused tag 11000001 appears and the length is 2 where Length_/Put_/ReversedPutReversed_ say 3",
+                                                 "one of the 255 values VARINT_SPLIT_FULL_MAX_22 + 1 .. + 255 through the forward reversed writer"),
+ "C03-rle-encode-end-marker-over-max": (["C03", "C16"], "varintRLEEncode appends a 2-byte end marker and Analyze/Size add 2, but varintRLEMaxSize stays count * 10", "no two adjacent values equal and every value needing 9 tagged bytes"),
+ "C04-split-two-byte-level-exclusive-compare": (["C04", "C01"], "the two-byte level test of the split writers became `v - MAX_6 < 0x3fff` (inclusive maximum, exclusive compare): 16446 is written with the VAR-level code point 81 00", "exactly the value 16446"),
+ "C05-tagged-3byte-bias-max2": (["C05", "C04", "C01"], "the 3-byte tagged class is biased by VARINT_TAGGED_MAX_2 (2287) instead of 2288 in encoder and decoder alike: 67823 gets payload 65536, which wraps to f9 00 00 and sorts below every other 3-byte encoding", "the value 67823 compared with any value in 2288..67822"),
+ "C06-bitmap-decode-rejects-full-array": (["C06", "C08", "C14"], "varintBitmapDecode refuses an array container of exactly VARINT_BITMAP_ARRAY_MAX (4096) entries, which varintBitmapAdd legitimately produces: the adaptive BITMAP arm encodes and then decodes nothing", "exactly 4096 strictly increasing values below 65536"),
+ "C07-auto-thresholds-round-to-nearest": (["C07"], "varintFloatEncodeAuto compares the requested error with u/(1+u) instead of u = 2^-m; truncateMantissa saturates instead of carrying, so the real worst case is just under 2^-m", "a requested error in [1/17, 1/16) (or the other two windows) and a value just below a power of two"),
+ "C08-removerange-all-but-last-clears": (["C08"], "varintBitmapRemoveRange(vb, 0, 65535) takes a fast path that clears the whole set although the half-open range excludes 65535", "a set containing 65535 and exactly that range"),
+ "C09-binary-search-mid-narrowed": (["C09"], "the binary search computes mid as (PACKED_LEN_TYPE)(min + max) >> 1: with an 8- or 16-bit length type the sum wraps before it is halved and mid can fall below min (non-termination / wrong position)", "an instantiation with a narrow length type filled past half its range"),
+ "C10-togglebit-previous-unmasked": (["C10"], "ToggleBit returns dst[byte] >> bit without & 1 as the previous value: any higher bit set in the same byte makes it true", "toggling a 0 cell while a cell mapping to a higher bit of the same byte is 1"),
+ "C11-set-overflow-keep-mask-wrong-shift": (["C11"], "the mask that preserves the second word in a straddling varintBitstreamSet is shifted by the low-bit position instead of the number of spilled bits", "a straddling write with a number of spilled bits != half the slot into a second word that already holds data"),
+ "C12-external-add-width-never-shrinks": (["C12", "C01"], "varintExternalAdd_ measures the new width starting at the current width (never smaller) but still stores with the auto-sizing Put: a narrower sum leaves the old high bytes and the old width is returned", "an addition (of a negative amount) that crosses a byte-width boundary downward"),
+ "C13-dict-decodeinto-capacity-by-dictsize": (["C13", "C14"], "varintDictDecodeInto checks dictSize > maxValues instead of count > maxValues", "uniqueValues <= capacity < count"),
+ "C14-bitmap-decode-dense-total-length": (["C14"], "the dense-bitmap branch of varintBitmapDecode compares the total length, not the payload left after the 5-byte header, with 8192", "type byte 1 and a declared length of 8192..8196"),
+ "C15-pfor-exception-count-from-sorted-ties": (["C15", "C16", "C03"], "varintPFORComputeThreshold derives exceptionCount from the sorted position (count - 1 - thresholdIndex): ties with the percentile value inflate it, varintPFOREncode allocates that many records, fills the real ones and writes them all", "the percentile value equal to a later sorted value (saturated / constant data)"),
+ "C16-pfor-size-index-budget-from-exceptioncount": (["C16", "C03"], "varintPFORSize budgets each exception index with varintTaggedLen(meta->exceptionCount) instead of the worst case", "outliers at indices whose tagged length exceeds that of the exception count, with 9-byte values"),
+ "C17-dict-find-last-hit-hint": (["C17"], "varintDictFind keeps a lastHit hint inside the caller's const varintDict (written through a cast)", "two threads sharing one pre-built dictionary"),
+ "C18-float-decode-oom-inplace-expand": (["C18", "C07"], "when the packed-mantissa scratch allocation fails varintFloatDecode expands in place in the mantissa array and reports success with wrong values", "the 5th allocation failing and a special value ahead of two normal ones"),
  "C01-tagged-8byte-class-boundary-slip": (["C01", "C04", "C05"], None, None),
  "C03-rle-size-one-byte-fastpath": (["C03", "C16"], "varintRLEAnalyze (hence varintRLESize, meta->encodedSize) sizes a run length <= 255 as one byte through a new helper; the tagged one-byte form ends at 240",
                                     "a run of 241..255 equal values"),
